@@ -45,3 +45,9 @@ package php5
 //@ gram empty-slot-types ExprArrayItem : an empty array/list slot has no position
 //@ gram stmt-list-slots StmtCase.Stmts StmtDefault.Stmts : -1 stands for a boundary formed by an empty statement list
 //@ gram provisional-end alt_if_stmt_without_else : elseif branches are appended before alt_if_stmt closes the node and sets its final end
+// PHP 5 builds member-access chains as lists of partial nodes (Var/Function still nil) that the
+// consuming rule folds into nested nodes, recomputing every Position from the chain so far and
+// the partial node's own end. A partial node's start is therefore provisional (e.g. the "->" token
+// is attached to the first element after its position was taken); its end is final and is what
+// the fold relies on.
+//@ gram provisional-start chaining_dereference chaining_instance_call chaining_method_or_property instance_call variable_property method_or_not array_method_dereference object_property object_dim_list dynamic_class_name_variable_property dynamic_class_name_variable_properties variable_properties : elements are partial chain nodes whose start is set by the folding rule
